@@ -1178,6 +1178,165 @@ example : SizesOk [[1, 2, 3], [], [4]] := by intro c hc; simp at hc; rcases hc w
 example : wireOf true ([[0x61, 0x62], [], [0x63]].map Out.sendData ++ [Out.sendEnd]) =
     [0x32, 13, 10, 0x61, 0x62, 13, 10, 0x31, 13, 10, 0x63, 13, 10, 48, 13, 10, 13, 10] := by decide
 
+/-! ### when streaming is due (clause "stream_large_bodies threshold exceeded, or an addon enables streaming") -/
+
+/-- **stream_starts_when_due.** At the headers of a message with a body: if the addon enables streaming (`.stream = True`
+    or a callable), or the announced length exceeds stream_large_bodies (and the addon does not switch it off) — and the
+    announced length does not exceed body_size_limit — the flow is in the stream state at once and the head has been
+    relayed; nothing is buffered. -/
+theorem stream_starts_when_due (exp : ExpSize)
+    (hdue : pol = .setTrue ∨ pol = .callable ∨ (pol = .none ∧ check o exp [] = .stream))
+    (hnot : check o exp [] ≠ .abort) :
+    (step o resp pol f init (.headers exp false)).1.phase = .stream ∧
+    Out.sendHead ∈ (step o resp pol f init (.headers exp false)).2 ∧
+    (step o resp pol f init (.headers exp false)).1.buf = [] := by
+  have hi : init.phase = .waitHeaders := rfl
+  rcases hdue with rfl | rfl | ⟨rfl, hc⟩
+  · cases hc : check o exp [] <;> simp [step, hi, hc, init] at hnot ⊢
+  · cases hc : check o exp [] <;> simp [step, hi, hc, init] at hnot ⊢
+  · simp [step, hi, hc, init]
+
+/-- **late_switch_when_due.** While a body is being buffered: the chunk that makes the buffered bytes exceed
+    stream_large_bodies (without exceeding body_size_limit) switches the flow to streaming — the head is relayed and
+    everything buffered so far, including that chunk, is sent as one piece; without store_streamed_bodies nothing stays
+    buffered. -/
+theorem late_switch_when_due (st : St) (b : Bytes) (hp : st.phase = .consume) (hne : st.buf ++ b ≠ [])
+    (hc : check o st.exp (st.buf ++ b) = .stream) :
+    (step o resp pol f st (.data b)).1.phase = .stream ∧
+    (step o resp pol f st (.data b)).2 = [Out.sendHead, Out.sendData (st.buf ++ b)] ∧
+    (o.store = false → (step o resp pol f st (.data b)).1.buf = []) := by
+  simp [step, hp, hc, hne, relay]
+
+-- non-vacuity: Content-Length 5 > stream_large_bodies 3, within body_size_limit 10
+example : check { limit := some 10, thr := some 3, store := false } (.known 5) [] = .stream := by decide
+
+/-- **response_over_limit_errors_in_exchange.** Whatever the request side of the exchange did (any body, framing, policy,
+    verdict — as long as the request itself was not refused): a response that is known to exceed body_size_limit ends
+    with the error hook and the error to client and server, and not one byte of it is forwarded.  (Seed c07-4's class:
+    no request-side "already checked" state can switch the response-side check off.) -/
+theorem response_over_limit_errors_in_exchange (rq rs : Side) (evs : List (Bool × Ev)) (h : ReqAlive o rq rs {} evs)
+    (pre post : List Ev) (ev : Ev) (hsplit : evsOf true evs = pre ++ ev :: post)
+    (hk : KnownTooLarge o (run o true rs.pol rs.f init pre).1 ev) :
+    (runX o rq rs {} evs).1.resp.phase = .errored ∧
+    Out.hookError ∈ outsOf true (runX o rq rs {} evs).2 ∧
+    Out.errClient ∈ outsOf true (runX o rq rs {} evs).2 ∧
+    Out.errServer ∈ outsOf true (runX o rq rs {} evs).2 ∧
+    dataOf (outsOf true (runX o rq rs {} evs).2) = [] ∧
+    Out.sendHead ∉ outsOf true (runX o rq rs {} evs).2 := by
+  obtain ⟨a1, a2⟩ := response_side_independent o rq rs {} evs h
+  have hx : ({} : XSt).resp = init := rfl
+  rw [a1, a2, hx, hsplit]
+  obtain ⟨b1, b2, b3, b4, b5, b6⟩ := over_limit_errors o true rs.pol rs.f pre post ev hk
+  exact ⟨b1, b2, b3, b4 rfl, b5, b6⟩
+
+/-! ### the tied receive path (`wireRun`, driver op `wire`) is `run` over `segEvents` -/
+
+/-- no delivery makes the readers raise (no protocol error, no trailer section) -/
+def CleanSegs : RSt → List Bytes → Prop
+  | _, [] => True
+  | s, seg :: rest => (eventsOf (feed s seg).2).2 = false ∧ CleanSegs (feed s seg).1 rest
+
+private theorem wire_fold (w : Wire) (segs : List Bytes) (hdead : w.dead = true → w.st.phase = .errored)
+    (hclean : w.dead = false → CleanSegs w.rs segs) :
+    (segs.foldl (fun w seg => w.recv o resp pol f seg) w).outs = w.outs ++ (run o resp pol f w.st (segEvents w.rs segs)).2 ∧
+    (segs.foldl (fun w seg => w.recv o resp pol f seg) w).st = (run o resp pol f w.st (segEvents w.rs segs)).1 := by
+  induction segs generalizing w with
+  | nil => simp [segEvents, run]
+  | cons seg rest ih =>
+    simp only [List.foldl_cons]
+    cases hd : w.dead
+    · -- alive: the delivery's events go through HttpStream
+      obtain ⟨hc1, hc2⟩ := hclean hd
+      have hrecv : w.recv o resp pol f seg =
+          { rs := (feed w.rs seg).1, st := (run o resp pol f w.st (eventsOf (feed w.rs seg).2).1).1,
+            dead := (eventsOf (feed w.rs seg).2).2 || decide ((run o resp pol f w.st (eventsOf (feed w.rs seg).2).1).1.phase = .errored),
+            protoErr := (eventsOf (feed w.rs seg).2).2 && !decide ((run o resp pol f w.st (eventsOf (feed w.rs seg).2).1).1.phase = .errored),
+            sawTrailer := (feed w.rs seg).2.contains .trailer,
+            outs := w.outs ++ (run o resp pol f w.st (eventsOf (feed w.rs seg).2).1).2,
+            smp := w.smp ++ [(run o resp pol f w.st (eventsOf (feed w.rs seg).2).1).1.buf.length] } := by
+        simp [Wire.recv, Wire.deliverItems, hd]
+      have h1 : (w.recv o resp pol f seg).dead = true → (w.recv o resp pol f seg).st.phase = .errored := by
+        rw [hrecv]; simp [hc1]
+      have h2 : (w.recv o resp pol f seg).dead = false → CleanSegs (w.recv o resp pol f seg).rs rest := by
+        rw [hrecv]; intro _; exact hc2
+      have := ih (w.recv o resp pol f seg) h1 h2
+      rw [this.1, this.2, hrecv]
+      simp only [segEvents, run_append, List.append_assoc]
+      constructor <;> simp [List.append_assoc]
+    · -- the connection is closed (HttpStream refused the body): nothing more is read, and nothing more would be handled
+      have herr := hdead hd
+      have hrecv : w.recv o resp pol f seg = { w with smp := w.smp ++ [w.st.buf.length] } := by
+        simp [Wire.recv, Wire.deliverItems, hd]
+      have h1 : (w.recv o resp pol f seg).dead = true → (w.recv o resp pol f seg).st.phase = .errored := by
+        rw [hrecv]; intro _; exact herr
+      have h2 : (w.recv o resp pol f seg).dead = false → CleanSegs (w.recv o resp pol f seg).rs rest := by
+        rw [hrecv]; intro h; simp [hd] at h
+      have := ih (w.recv o resp pol f seg) h1 h2
+      rw [this.1, this.2, hrecv]
+      simp only
+      rw [run_errored o resp pol f w.st herr, run_errored o resp pol f w.st herr]
+      exact ⟨rfl, rfl⟩
+
+/-- **wireRun_is_run_over_segEvents.** The receive path the `wire` driver op runs (and the correspondence ties to the real
+    Http1 connection layer + HttpStream) is, as long as the readers do not raise, nothing but HttpStream's `run` over the
+    headers followed by `segEvents` of the deliveries — so the segmentation theorems speak about the tied function. -/
+theorem wireRun_is_run_over_segEvents (fr : Framing) (segs : List Bytes) (hclean : CleanSegs (startReader fr).1 segs) :
+    (wireRun o resp pol f fr segs false).outs =
+      (run o resp pol f init
+        (Ev.headers fr.exp
+          (decide (fr = .cl 0)) :: ((eventsOf (startReader fr).2).1 ++ segEvents (startReader fr).1 segs))).2 ∧
+    (wireRun o resp pol f fr segs false).st =
+      (run o resp pol f init
+        (Ev.headers fr.exp
+          (decide (fr = .cl 0)) :: ((eventsOf (startReader fr).2).1 ++ segEvents (startReader fr).1 segs))).1 := by
+  unfold wireRun
+  simp only [Bool.false_eq_true, if_false]
+  have := wire_fold o resp pol f
+    { rs := (startReader fr).1,
+      st := (run o resp pol f init (Ev.headers fr.exp
+        (decide (fr = .cl 0)) :: (eventsOf (startReader fr).2).1)).1,
+      dead := decide ((run o resp pol f init (Ev.headers fr.exp
+        (decide (fr = .cl 0)) :: (eventsOf (startReader fr).2).1)).1.phase = .errored),
+      outs := (run o resp pol f init (Ev.headers fr.exp
+        (decide (fr = .cl 0)) :: (eventsOf (startReader fr).2).1)).2,
+      smp := [(run o resp pol f init (Ev.headers fr.exp
+        (decide (fr = .cl 0)) :: (eventsOf (startReader fr).2).1)).1.buf.length] }
+    segs (by simp) (by intro _; exact hclean)
+  simp only at this
+  rw [this.1, this.2]
+  rw [show (Ev.headers fr.exp
+        (decide (fr = .cl 0)) :: ((eventsOf (startReader fr).2).1 ++ segEvents (startReader fr).1 segs)) =
+      (Ev.headers fr.exp
+        (decide (fr = .cl 0)) :: (eventsOf (startReader fr).2).1) ++ segEvents (startReader fr).1 segs by simp]
+  rw [run_append]
+  exact ⟨rfl, rfl⟩
+
+/-- **wireRun_segmentation_independent.** For the tied receive path itself: the same wire bytes of a message with a body
+    (`fr ≠ cl 0`), delivered in two different segmentations on which the readers do not raise, both runs ending `done`
+    without a callable — the peer was sent the same bytes, namely the body the readers extract from the wire. -/
+theorem wireRun_segmentation_independent (hpol : pol ≠ .callable) (fr : Framing) (hfr : fr ≠ .cl 0)
+    (a b : List Bytes) (hsame : a.flatten = b.flatten)
+    (ca : CleanSegs (startReader fr).1 a) (cb : CleanSegs (startReader fr).1 b)
+    (ha : (wireRun o resp pol f fr a false).st.phase = .done) (hb : (wireRun o resp pol f fr b false).st.phase = .done) :
+    (dataOf (wireRun o resp pol f fr a false).outs).flatten = (dataOf (wireRun o resp pol f fr b false).outs).flatten ∧
+    (dataOf (wireRun o resp pol f fr a false).outs).flatten = bodyOf (feed (startReader fr).1 a.flatten).2 := by
+  have hs : (eventsOf (startReader fr).2).1 = [] := by
+    cases fr with
+    | cl n => cases n with
+      | zero => exact absurd rfl hfr
+      | succ k => simp [startReader, eventsOf, eventsGo]
+    | chunked => simp [startReader, eventsOf, eventsGo]
+    | untilEof => simp [startReader, eventsOf, eventsGo]
+  obtain ⟨a1, a2⟩ := wireRun_is_run_over_segEvents o resp pol f fr a ca
+  obtain ⟨b1, b2⟩ := wireRun_is_run_over_segEvents o resp pol f fr b cb
+  rw [a2, hs, List.nil_append] at ha
+  rw [b2, hs, List.nil_append] at hb
+  rw [a1, b1, hs, List.nil_append]
+  exact wire_relay_segmentation_independent o resp pol f hpol fr.exp (decide (fr = .cl 0)) (startReader fr).1 a b hsame ha hb
+
+example : CleanSegs (.size {}) [[0x33, 0x0d], [0x0a, 0x61], [0x62, 0x63, 0x0d, 0x0a, 0x30, 0x0d, 0x0a, 0x0d, 0x0a]] := by
+  simp only [CleanSegs]; decide
+
 /-! ### parse_size -/
 
 /-- the regenerated SIZE_UNITS table is b,k,m,g,t = 1024^0..4 -/
